@@ -23,7 +23,16 @@
 (*   [kind: "list", items: Schema, min: Opt, max: Opt]                     *)
 (*   [kind: "map", keys: Schema, vals: Schema, min: Opt, max: Opt]         *)
 (*   [kind: "object", id: STRING, props: SUBSET Prop, id_unenforced: BOOLEAN]*)
-(*        Prop = [name: STRING, required: BOOLEAN, type: Schema]           *)
+(*        Prop = [name: STRING, required: BOOLEAN, type: Schema,           *)
+(*                has_default: BOOLEAN, disabled: BOOLEAN]                 *)
+(*        (has_default: the property declares a default value - the        *)
+(*         harness renders one that fits the type; disabled: the property  *)
+(*         was switched off with .Disable(reason).  Both concern the USE   *)
+(*         of the schema on data: a default is filled in when data is      *)
+(*         unserialized, a disabled property refuses data.  Neither changes*)
+(*         what the schema IS: a producer schema that omits a required     *)
+(*         property still lacks it, and a schema with a disabled property  *)
+(*         is still itself.)                                               *)
 (*   [kind: "ref", id: STRING]           (resolved in the enclosing scope) *)
 (*   [kind: "scope", root: STRING, objects: SUBSET object]                 *)
 (*   [kind: "oneof", disc: "string" | "int", field: STRING,                *)
@@ -50,7 +59,8 @@ AnyS                    == [kind |-> "any"]
 Enum(k, vs, named)     == [kind |-> k, values |-> vs, named |-> named]
 List(it, mn, mx)       == [kind |-> "list", items |-> it, min |-> mn, max |-> mx]
 Map(ks, vs, mn, mx)    == [kind |-> "map", keys |-> ks, vals |-> vs, min |-> mn, max |-> mx]
-Prop(n, t, req)        == [name |-> n, required |-> req, type |-> t]
+PropX(n, t, req, dflt, dis) == [name |-> n, required |-> req, type |-> t, has_default |-> dflt, disabled |-> dis]
+Prop(n, t, req)        == PropX(n, t, req, FALSE, FALSE)
 Object(id, ps, unenf)  == [kind |-> "object", id |-> id, props |-> ps, id_unenforced |-> unenf]
 Ref(id)                == [kind |-> "ref", id |-> id]
 Scope(root, objs)      == [kind |-> "scope", root |-> root, objects |-> objs]
@@ -106,6 +116,8 @@ RuleSize(A, B)        == A.kind = B.kind /\ A.kind \in {"string", "list", "map"}
 RuleEnumValue(A, B)   == A.kind = B.kind /\ A.kind \in {"enum_int", "enum_string"} /\ ~(B.values \subseteq A.values)
 RuleID(OA, OB)        == ~OA.id_unenforced /\ ~OB.id_unenforced /\ OA.id # OB.id
 RuleUndeclared(OA, OB) == PropNames(OB) \ PropNames(OA) # {}
+\* "lacking a required one": whether the consumer also declares a default for it (p.has_default) or has
+\* it disabled is deliberately NOT consulted - the producer's schema does not offer the property
 RuleMissing(OA, OB)   == \E p \in OA.props : p.required /\ p.name \notin PropNames(OB)
 RuleDiscriminator(A, B) == A.field # B.field
 RuleMember(A, B)      == Keys(A) \ Keys(B) # {}
@@ -148,9 +160,23 @@ Reasons(A, B, ta, tb, seen) ==
 
 MustReject(A, B) == Reasons(A, B, {}, {}, {}) # {}
 
+\* Plain(S): S with every property's default and disabled flag cleared.  The rejection rules are stated
+\* on the structure of the two schemas only; CompatMC checks MustReject(A, B) = MustReject(Plain(A), Plain(B))
+\* with the same reasons on every pair (a default or a disabled flag neither excuses nor causes a rejection).
+RECURSIVE Plain(_)
+Plain(S) ==
+    CASE S.kind = "list"   -> [S EXCEPT !.items = Plain(@)]
+      [] S.kind = "map"    -> [S EXCEPT !.keys = Plain(@), !.vals = Plain(@)]
+      [] S.kind = "object" -> [S EXCEPT !.props = {PropX(p.name, Plain(p.type), p.required, FALSE, FALSE) : p \in @}]
+      [] S.kind = "scope"  -> [S EXCEPT !.objects = {Plain(o) : o \in @}]
+      [] S.kind = "oneof"  -> [S EXCEPT !.members = {Member(m.key, Plain(m.obj)) : m \in @}]
+      [] OTHER             -> S
+
 \* Describe / Rebuild are the identity on abstract schemas (the description carries exactly
 \* the fields of the AST); what the real SelfSerialize + UnserializeScope do to the Go values
-\* is what the harness exercises in its "rebuilt" modes.
+\* is what the harness exercises in its "rebuilt" modes.  Equality of abstract schemas includes the
+\* has_default / disabled flags of every property: a schema carrying disabled properties is compatible
+\* with itself and with its rebuilt copy like any other.
 Rebuilt(A) == A
 MustAccept(A, B) == B = A \/ B = Rebuilt(A)
 
@@ -167,7 +193,9 @@ VerdictOK(A, B, verdict) ==
 \* set (without it a schema would have to be rejected against itself), enums and one-ofs are
 \* non-empty, map keys are int / string / enum, object IDs are unique within a scope, the
 \* root and every reference resolve, one-of members are objects that do not declare the
-\* discriminator field themselves (not inlined).
+\* discriminator field themselves (not inlined), defaults are declared on properties of scalar kinds
+\* only (the harness has to render a value of the type).
+DefaultKinds == {"int", "float", "string", "bool", "enum_int", "enum_string"}
 KeyKinds == {"int", "string", "enum_int", "enum_string"}
 BoundsOK(S) == /\ (S.min.some => S.min.v >= 0) /\ (S.max.some => S.max.v >= 0)
                /\ (S.min.some /\ S.max.some => S.min.v <= S.max.v)
@@ -182,7 +210,7 @@ WF(S, table) ==
                             /\ WF(S.keys, table) /\ WF(S.vals, table)
       [] S.kind = "object" ->
             /\ \A p \in S.props, q \in S.props : p.name = q.name => p = q
-            /\ \A p \in S.props : WF(p.type, table)
+            /\ \A p \in S.props : WF(p.type, table) /\ (p.has_default => p.type.kind \in DefaultKinds)
       [] S.kind = "ref" -> Declared(table, S.id)
       [] S.kind = "scope" ->
             /\ Declared(S.objects, S.root)
